@@ -125,9 +125,14 @@ INTERVENING = (
 )
 
 
+def opt_cases(tier: str):
+    """Cases also executed by an interpreter started with -O (see vf/optpass.py)."""
+    return drive.opt_sweep_cases(tier)
+
+
 def enumerate_cases(tier: str):
     # one event of every kind under every environment dimension (transport kind, logging, warnings, a bystander gateway, registry file, ...)
-    yield from drive.env_sweep_cases()
+    yield from drive.all_sweep_cases()
     # one parked command, one intervening event of every kind, then the wake: the command is owed whatever happened in between
     registry = {
         "11": {"node_id": 11, "node_type": 17, "protocol_version": "2.0", "sketch_name": "", "sketch_version": "", "battery_level": 0, "heartbeat": 0, "sleeping": True,
